@@ -744,8 +744,8 @@ class Mirror:
 
     def cp(self, s, d, move=False, with_meta=True):
         s, d = tuple(s), tuple(d)
-        if s not in self.nodes or d in self.nodes or not s or not d or d[:len(s)] == s:
-            return
+        if s not in self.nodes or d in self.nodes or not s or not d or (move and d[:len(s)] == s):
+            return          # (a COPY below the source itself grafts a snapshot of the source)
         for i in range(1, len(d)):
             if self.nodes.get(d[:i]) == "D":
                 return
@@ -784,7 +784,7 @@ def _reserved_path(rng, mir: Mirror) -> str:
 def gen_history(rng, nops: int, p_bnd: float = 0.06, p_reserved: float = 0.03) -> List[list]:
     """Random history: data operations as in the C08 check (same restrictions: canonical user
     paths, absolute copy destinations only from the root group, copyinto never into the root
-    group, never into the source's own subtree) + attach/detach over the harness schema family
+    group; copies - not moves - may go below the source itself) + attach/detach over the harness schema family
     + reopen (read-only phases) + IH5 patch boundaries."""
     mir = Mirror()
     ops: List[list] = []
@@ -820,6 +820,13 @@ def gen_history(rng, nops: int, p_bnd: float = 0.06, p_reserved: float = 0.03) -
         def fresh():
             base = list(rng.choice(groups))
             return base + [rng.choice(SEGS) for _ in range(1 if rng.random() < 0.7 else 2)]
+
+        def below(s):
+            # a destination strictly below the source itself: directly, via new intermediate
+            # groups, or inside one of its existing sub-groups
+            inner = [list(g) for g in groups if len(g) > len(s) and list(g[:len(s)]) == s]
+            base = rng.choice(inner) if inner and rng.random() < 0.5 else list(s)
+            return base + [rng.choice(SEGS) for _ in range(1 if rng.random() < 0.5 else 2)]
 
         def fresh_or_reused(p_reuse):
             # a path where an annotated node lived earlier in this history (moved away or deleted)
@@ -878,8 +885,8 @@ def gen_history(rng, nops: int, p_bnd: float = 0.06, p_reserved: float = 0.03) -
             if ro and not ro_acl:
                 continue        # HDF5 attempts the write of a copy on a read-only file descriptor
             s, d = some_annotated(), fresh_or_reused(0.45)
-            if d[:len(s)] == s:
-                continue
+            if rng.random() < 0.14:
+                d = below(s)        # copy to a place below the source itself (move there stays excluded)
             wm = rng.random() < 0.35
             if cwd and (d[:len(cwd)] != cwd or (not wm and mir.nodes.get(tuple(s)) != "G")):
                 # HDF5 checks an absolute destination relative to the calling group; the wrapper
@@ -897,9 +904,10 @@ def gen_history(rng, nops: int, p_bnd: float = 0.06, p_reserved: float = 0.03) -
             if again and rng.random() < 0.4:
                 q = list(rng.choice(again))
                 dg, name = q[:-1], q[-1:]
+            own = [list(g) for g in nonroot if list(g[:len(s)]) == s]
+            if own and rng.random() < 0.15:
+                dg = rng.choice(own)        # into the source group itself or one of its sub-groups
             d = dg + (name if name else s[-1:])
-            if d[:len(s)] == s:
-                continue
             wm = rng.random() < 0.35
             cwd, cwds = [], "/"
             op = ["copyinto", cwds, _spell(rng, cwd, s), absname(dg), name, wm]
@@ -1122,4 +1130,14 @@ def pattern_histories() -> List[List[list]]:
               ["sattach", "/y", bb, "2", True], ["detach", "/x", cc], ["detach", "/y", bb], ["sattach", "/x", aa, "0", True],
               ["detach", "/y", dd], ["detach", "/x", aa]])
     H += reuse_patterns()
+    # copies to places strictly below the source itself (a snapshot of the source is grafted): new
+    # intermediate groups, an existing sub-group, into the own group object; with / without metadata
+    for wm in (False, True):
+        H.append([list(o) for o in nest] + [["copy", "/", "t", "t/n1/n2", wm], ["copy", "/", "t/u", "t/u/v/cp", wm],
+                                             ["copyinto", "/", "t/u/v", "/t/u/v/w", ["in"], wm], ["copyinto", "/", "t", "/t", [], not wm],
+                                             ["reopen", False, "file"], ["copy", "/", "t/n1", "t/n1/n2/t/again", False],
+                                             ["move", "/", "t/u", "u3"], ["del", "/", "t"], ["del", "/", "u3"]])
+    H.append([["set", "/", "x", "i:1"], ["sattach", "/x", aa, "0", True], ["copy", "/", "x", "x/y", False], ["copy", "/", "x", "x", False],
+              ["mkgrp", "/", "g"], ["sattach", "/g", bb, "1", True], ["copy", "/", "g", "g/g", False], ["copy", "/", "g", "g/g", False],
+              ["copy", "/", "g/g", "g/g/g/h", True], ["copy", "/g", "g", "g/k", False], ["del", "/g", "g"], ["del", "/", "g"]])
     return H
